@@ -83,6 +83,18 @@ func c12Scenarios(batch int) []Scenario {
 			wantHeader(e, x, "R", 2, viol)
 			x.Outcome = res(e, "R").String()
 		}})
+	// S9: empty store: the reader waits for the very first header (the published height is initialised
+	// to it, nothing advances afterwards)
+	out = append(out, Scenario{Name: "S9-empty-store-first-header", Batch: batch, Preload: 0,
+		Build: func(e *Env) {
+			ctx, _ := context.WithTimeout(bg, readerDeadline) //nolint
+			reader(e, "R", ctx, 1)
+			e.Thread("W", func() { e.Note("Werr", e.St.Append(bg, e.C[1])) })
+		},
+		Check: func(e *Env, x *Exec, viol func(string, string, ...any)) {
+			wantHeader(e, x, "R", 1, viol)
+			x.Outcome = res(e, "R").String()
+		}})
 	// S2: reader for a height that is appended non-contiguously first
 	out = append(out, Scenario{Name: "S2-gapped-then-filled", Batch: batch, Preload: 1,
 		Build: func(e *Env) {
